@@ -135,7 +135,7 @@ CHECKS = {
              "not by theorem; lupa, the Lua VM and sandbox files exercised not modelled; mw.ustring stubbed.",
         ref="DESIGN.md section 4 C08"),
     "C02": dict(
-        technique="Coq proofs (section machine and list machine = declarative nesting models for every sequence) + tree correspondence",
+        technique="Coq proofs (section machine, list machine and their line-by-line combination = declarative nesting models for every page) + tree correspondence",
         text="Theorem c02_sections_follow_nesting_model: for every document of headings, content blocks and rules the stack "
              "machine shaped like subtitle_start_fn/hline_fn produces exactly the tree of the right-to-left 'a section absorbs "
              "what follows' specification (proved via the attach bridge). The model is tied to parser.py by comparing the "
@@ -145,8 +145,13 @@ CHECKS = {
              "forest of the declarative model (an item takes the following lists whose marker properly extends its own, then "
              "continues an equal-marker list, else starts its own), and pop_until_nth_list never pops on reachable stacks; tied "
              "to parser.py by comparing the list forest of real trees with Model.Lists.parse (exhaustive marker sequences of "
-             "depth<=3 to 2-3 lines, marker walks, random). PARTIAL: the interleaving of list blocks with other content is "
-             "decided by the reference written from the property text.",
+             "depth<=3 to 2-3 lines, marker walks, random). Theorems c02_pages_follow_nesting_model and "
+             "c02_page_machine_is_sections_over_lists: on whole pages - headings, paragraphs, rules and list lines in any order - "
+             "the line-by-line machine (list machine on top of the section stack; every other block first closes all open lists, "
+             "close_begline_lists) builds exactly the tree of the combined specification; Model.Blocks.parse is compared inside Coq "
+             "with the whole real tree of every generated page that has lists. PARTIAL: definition lists (; :), text continuing a "
+             "list item and the inline content of blocks are outside the models and decided by the reference written from the "
+             "property text.",
         note=TRUST + "tokenizer and inline handlers are glue under the diff.",
         ref="DESIGN.md section 4 C02"),
     "C01": dict(
